@@ -34,6 +34,14 @@ Definition c01_open_case (suffix : bool) (p : part) (wild : leaf) (sigma : list 
   (upa_check sigma pids (fun _ _ => false) fuel (compile p), count_true (accepts_open suffix p wild) ws,
    mism_aux (accepts_open suffix p wild) ws 0%N bits).
 
+(* XSD 1.1: an element particle and a wildcard that compete for a child are not a UPA violation (the element wins);
+   `ex` lists those pairs, the language of the model is unchanged *)
+Definition c01_case_ex (p : part) (sigma : list N) (pids : list nat) (ex : list (nat * nat)) (fuel n : nat) (bits : N)
+  : option bool * nat * list N :=
+  let ws := words_upto sigma n in
+  (upa_check sigma pids (pair_excused ex) fuel (compile p), count_true (accepts p) ws,
+   mism_aux (accepts p) ws 0%N bits).
+
 (* C15 case: strict UPA verdict and verdict with the excused pairs (XSD 1.1) *)
 Definition c15_case (p : part) (sigma : list N) (pids : list nat) (ex : list (nat * nat)) (fuel : nat)
   : option bool * option bool * option nat :=
